@@ -4,11 +4,13 @@ import (
 	"encoding/json"
 	"errors"
 	"fmt"
+	"reflect"
 	"regexp"
 	"strings"
 
 	"github.com/verily-src/fhirpath-go/fhirpath"
 	"github.com/verily-src/fhirpath-go/fhirpath/compopts"
+	"github.com/verily-src/fhirpath-go/fhirpath/internal/funcs"
 	"github.com/verily-src/fhirpath-go/fhirpath/internal/funcs/impl"
 	"github.com/verily-src/fhirpath-go/fhirpath/verifharness/core"
 	"github.com/verily-src/fhirpath-go/fhirpath/verifharness/fx"
@@ -206,6 +208,17 @@ func runC16(env *core.Env) {
 	}
 	if env.Shard == 0 {
 		c16Discrimination(env, table)
+		// every entry of the experimental table is what WithExperimentalFuncs makes callable under that name
+		// (an entry that a base-table entry of the same name keeps out of reach is implemented but unreachable)
+		expOnly := funcs.AddExperimentalFuncs(funcs.FunctionTable{})
+		merged := funcs.AddExperimentalFuncs(funcs.Clone())
+		for name, e := range expOnly {
+			env.Cover("experimental-entry-reachable")
+			m, ok := merged[name]
+			if !ok || m.MinArity != e.MinArity || m.MaxArity != e.MaxArity || reflect.ValueOf(m.Func).Pointer() != reflect.ValueOf(e.Func).Pointer() {
+				env.Violatef("C16/experimental-entry-shadowed/"+name, "the experimental table binds %q (arity %d..%d) but with WithExperimentalFuncs the name resolves to another entry (present=%v arity %d..%d): the implementation is unreachable under its name", name, e.MinArity, e.MaxArity, ok, m.MinArity, m.MaxArity)
+			}
+		}
 	}
 	// specification reachability + fingerprints
 	for _, sp := range specList {
